@@ -123,7 +123,7 @@ def check_normalize(case, ctx):
     kinds_all = []
     for descs in case["params"]:
         # parameters correspond by knot index / span fraction; the 'other direction' class does not correspond
-        descs = [(["in"] + list(x[1:3])) if x[0] in ("other", "near", "within", "zero") else x for x in descs]
+        descs = [(["in"] + list(x[1:3])) if x[0] in ("other", "near", "within", "zero", "edge") else x for x in descs]
         uN, kinds = build.resolve_params(N, descs)
         uF, _ = build.resolve_params(Fo, descs)
         kinds_all += kinds
@@ -150,7 +150,7 @@ def check_normalize(case, ctx):
     ctx.nt(any(k in ("knot", "end", "start") for k in kinds_all), "on-knot-or-end")
     plN, plF = [], []
     for descs in case["params"]:
-        descs = [(["in"] + list(x[1:3])) if x[0] in ("other", "near", "within", "zero") else x for x in descs]
+        descs = [(["in"] + list(x[1:3])) if x[0] in ("other", "near", "within", "zero", "edge") else x for x in descs]
         plN.append(build.call_param(N, build.resolve_params(N, descs)[0]))
         plF.append(build.call_param(Fo, build.resolve_params(Fo, descs)[0]))
     ln, lf = N.evaluate_list(plN), Fo.evaluate_list(plF)
